@@ -351,6 +351,16 @@ def targeted(ctx):
                     ctx.execute("prog", {"prog": p})
     ctx.note_space("0..3 raised errors (separately or as one MultipleExceptions) x every subset of "
                    "user details named traceback / traceback-1 / traceback-2 attached beforehand", n)
+    # many details competing for one name in ONE test: 9, 10, 11 ... 14 failed expectations whose mismatches all bring
+    # a detail called 'foo' (the suffixes pass from one digit to two)
+    for k in (9, 10, 11, 12, 14):
+        for where in ("test", "su"):
+            if ctx.mine():
+                tok = progen.Tok()
+                p = {"su_pre": [], "su": [], "test": [], "td": [], "td_pre": []}
+                for _ in range(k):
+                    p[where].append(["expect", tok("E"), False, [["foo", tok("D").encode().hex()]]])
+                ctx.execute("prog", {"prog": p})
     n = 0
     for k in range(1, 4):
         for mask in range(8):
